@@ -23,7 +23,11 @@ def hostile_text(r, n):
 
 
 def make_event(msg, i):
-    return {"EventLevel": "Info", "Message": msg, "Version": "9.9.9", "TaskName": "task<%d>&" % i, "EventPid": "123", "EventTid": "456",
+    # the id fields of an event file are text as well (whoever wrote the file chose them): now and then they are not decimal numbers
+    pid, tid = "123", "456"
+    if i % 11 == 5:
+        pid, tid = [("12]]><Event id=\"7\"><![CDATA[x]]></Event><![CDATA[", "456"), ("123", "4]]>&<"), (" 77 ", "-1"), ("1<2>&\"'", "99999999999999999999999")][(i // 11) % 4]
+    return {"EventLevel": "Info", "Message": msg, "Version": "9.9.9", "TaskName": "task<%d>&" % i, "EventPid": pid, "EventTid": tid,
             "OperationId": "op\"%d\"" % i, "TimeStamp": "2024-09-04T02:00:00.222Z"}
 
 
@@ -99,11 +103,13 @@ def worker(args, scratch):
             r = common.rng("c18", args["shard"], sc, args["tier"])
             with lock:
                 posts.clear(); plan["i"] = 0
-                fp = r.choice(["all-ok", "all-ok", "one-fail", "random", "five-fails", "six-fails", "odd-acks"])
+                fp = r.choice(["all-ok", "all-ok", "one-fail", "random", "five-fails", "six-fails", "odd-acks", "resets", "resets-forever"])
                 if fp == "all-ok": plan["faults"] = []
                 elif fp == "one-fail": plan["faults"] = [r.choice(["500", "reset"])]
                 elif fp == "random": plan["faults"] = [r.choice(["ok", "ok", "500", "reset", "503", "ok-truncated-body", "ok-with-body"]) for _ in range(60)]
                 elif fp == "five-fails": plan["faults"] = ["500"] * 4 + ["ok"]
+                elif fp == "resets-forever": plan["faults"] = ["reset"] * 100000       # the host drops every connection for as long as the scenario lasts: processing must still end
+                elif fp == "resets": plan["faults"] = ["reset"] * r.choice([4, 5, 7, 9]) + ["ok"]      # the host drops the connection, more often than the retry bound
                 elif fp == "odd-acks": plan["faults"] = [r.choice(["ok-truncated-body", "ok-with-body"]) for _ in range(60)]
                 else: plan["faults"] = ["500", "reset", "500", "503", "500", "ok"]
             originals = {}   # id -> message
